@@ -4,7 +4,8 @@
   Model: GrogModel/Tree.lean (mirrors internal/output/handlers/{file,dir}_output_handler.go,
   internal/output/registry.go validateTargetResultOutputs, internal/caching/cas.go Write).
 -/
-import GrogModel.Lemmas.TreeFS
+import GrogModel.Lemmas.TreeBuild
+import GrogModel.Lemmas.TreeSort
 namespace Grog.C06
 open Grog
 
@@ -83,5 +84,169 @@ theorem restoreFile_old_missing_parent_witness :
       (restoreFile id .fixed [1] false [([1], [1])] (.dir []) [[111], [102]]).toOption.bind
         (·.nodeAt [[111], [102]]) = some (.file [1] false) := by
   decide
+
+/-! ## Directory outputs -/
+
+section Dir
+variable (H : Bytes → Digest) (serD : Directory → Bytes) (serT : TreeMsg → Bytes) (deT : Bytes → Option TreeMsg)
+
+/-- **Directory outputs are restored exactly, from every prior state of the destination.**
+
+    `fs0` is the workspace when the output was cached: a well-formed directory `es` (names distinct within every
+    directory) at `q ++ [n]`. `writeDir` stores the file blobs (de-duplicated by digest), then the tree blob.
+    `cas` is *any* CAS that holds what `writeDir` stored (each upload under its digest, the marshalled tree under the
+    tree digest). `fs` is *any* workspace state in which the restore runs — destination absent, absent parents, a file
+    or a symlink or another tree or the same tree at the destination, stale extra entries — provided no ancestor of
+    the destination is a non-directory (`Clear fs q`).  Then `restoreDir` succeeds and the destination has exactly
+    the cached recursive listing (`Entry.Same`: same names, kinds, contents, executable bits, link targets, empty
+    directories, nothing extra).
+
+    Hypotheses on the parameters, all restricted to what occurs: `serD` injective on the sub-directory messages of
+    the tree, `deT` inverts `serT` on the tree message (protobuf), no hash collision among the streams hashed for the
+    cached tree; and — only if the destination currently is a directory `es'` — the same for `es'`, `serT` separating
+    the two tree messages and no collision among the streams of both (needed for the local-hash shortcut). The
+    recursion budget `fuel` of the model only has to exceed the nesting depth. -/
+theorem restoreDir_writeDir (fs0 fs : Entry) (q : Path) (n : Name) (id : Bytes)
+    (es : List (Name × Entry)) (cas0 : Cas) (fuel : Nat)
+    (hsrc : fs0.get (q ++ [n]) = some (.dir es))
+    (hwf : (Entry.dir es).WF)
+    (hfuel : depthList es < fuel)
+    (hserD : InjOnKids H serD serD es)
+    (hdeT : deT (serT (treeMsg H serD es)) = some (treeMsg H serD es))
+    (hcf : CollisionFree H (streams H serD serT es))
+    (hpar : Clear fs q)
+    (hprior : ∀ es', fs.get (q ++ [n]) = some (.dir es') →
+      (Entry.dir es').WF ∧ InjOnKids H serD serD es' ∧
+      (serT (treeMsg H serD es') = serT (treeMsg H serD es) → treeMsg H serD es' = treeMsg H serD es) ∧
+      CollisionFree H (streams H serD serT es ++ streams H serD serT es')) :
+    ∃ total cas1,
+      writeDir H serD serT fs0 (q ++ [n]) id cas0 = .ok (.dir id (H (serT (treeMsg H serD es))) total, cas1) ∧
+      ∀ cas : Cas, (∀ u ∈ (encList H serD es).ups, cas.get u.1 = some u.2) →
+        cas.get (H (serT (treeMsg H serD es))) = some (serT (treeMsg H serD es)) →
+        ∃ fs', restoreDir H serD serT deT fuel (H (serT (treeMsg H serD es))) cas fs (q ++ [n]) = .ok fs' ∧
+          ∃ r, fs'.get (q ++ [n]) = some r ∧ r.Same (.dir es) := by
+  refine ⟨((encList H serD es).ups.map (·.2.length)).sum,
+    (writeBlobs cas0 (encList H serD es).ups).write (H (serT (treeMsg H serD es))) (serT (treeMsg H serD es)),
+    by simp [writeDir, hsrc], ?_⟩
+  intro cas hups htree
+  unfold restoreDir
+  split
+  · -- local-hash shortcut
+    rename_i hsc
+    simp only [hashDirAt] at hsc
+    cases hg : fs.get (q ++ [n]) with
+    | none => simp [hg] at hsc
+    | some e =>
+      cases e with
+      | file b x => simp [hg] at hsc
+      | link t => simp [hg] at hsc
+      | dir es' =>
+        simp only [hg, Option.some.injEq] at hsc
+        obtain ⟨hwf', hserD', hserT', hcf'⟩ := hprior es' hg
+        exact ⟨fs, rfl, .dir es', hg, shortcut_sound H serD serT es es' hwf hwf' hserD hserD' hserT' hcf' hsc⟩
+  · -- fetch the tree, clear the destination, rebuild
+    obtain ⟨fs1, hrm, hcl⟩ := removeAll_spec (n := n) hpar
+    obtain ⟨fs2, hmk, ⟨es2, hd2⟩, _⟩ := mkdirAll_spec hcl
+    obtain ⟨esq, hq⟩ := Entry.parent_dir_of_get hd2
+    have hinj : ∀ a ∈ (encList H serD es).kids, ∀ b ∈ (encList H serD es).kids,
+        H (serD a.2) = H (serD b.2) → a.2 = b.2 := by
+      intro a ha b hb hab
+      apply hserD a ha b hb
+      apply hcf _ _ _ _ hab
+      · simp only [streams, List.mem_append, List.mem_map]; exact Or.inl (Or.inr ⟨a, ha, rfl⟩)
+      · simp only [streams, List.mem_append, List.mem_map]; exact Or.inl (Or.inr ⟨b, hb, rfl⟩)
+    obtain ⟨built, hb, hsame⟩ := buildDir_enc H serD cas (childMap H serD (children (encList H serD es).kids)) fuel es
+      hfuel hwf hups (childMap_lookup H serD _ (kids_digest H serD es) hinj)
+    obtain ⟨fs', hset, hget⟩ := setAt_spec (n := n) built ⟨esq, hq⟩
+    refine ⟨fs', ?_, built, hget, hsame⟩
+    simp only [htree, hdeT, hrm, hmk]
+    simp only [treeMsg] at hb ⊢
+    simp only [hb, hset]
+
+end Dir
+
+/-! toy (but, on the trees below, injective) marshalling functions for the satisfiability example -/
+def toySerD (d : Directory) : Bytes :=
+  d.files.flatMap (fun f => f.name ++ [0] ++ f.digest ++ [0, if f.exec then 1 else 2]) ++ [255] ++
+  d.dirs.flatMap (fun x => x.name ++ [0] ++ x.digest ++ [0]) ++ [255] ++
+  d.links.flatMap (fun l => l.name ++ [0] ++ l.target ++ [0])
+def toySerT (t : TreeMsg) : Bytes := toySerD t.root ++ [254] ++ t.children.flatMap (fun c => toySerD c ++ [253])
+
+def exTree : List (Name × Entry) :=
+  [([97], .file [1] true), ([98], .dir []), ([99], .dir [([97], .file [1] true)]), ([100], .link [97])]
+def exPrior : List (Name × Entry) := [([97], .file [1] false), ([122], .file [7] false)]
+def toyDeT (b : Bytes) : Option TreeMsg :=
+  if b = toySerT (treeMsg id toySerD exTree) then some (treeMsg id toySerD exTree) else none
+
+/-- the hypotheses of `restoreDir_writeDir` are satisfiable by a non-trivial tree and prior state: a directory with
+    an executable file, an empty sub-directory, a sub-directory repeating the file and a symlink, restored over a
+    destination that currently holds another directory (flipped executable bit, a stale extra file), below a missing
+    parent; `H := id`. -/
+example :
+    (Entry.dir exTree).WF ∧ depthList exTree < 3 ∧
+    InjOnKids id toySerD toySerD exTree ∧
+    toyDeT (toySerT (treeMsg id toySerD exTree)) = some (treeMsg id toySerD exTree) ∧
+    CollisionFree id (streams id toySerD toySerT exTree) ∧
+    Clear (.dir [([111], .dir [([116], .dir exPrior)])]) [[111]] ∧
+    ((Entry.dir exPrior).WF ∧ InjOnKids id toySerD toySerD exPrior ∧
+      (toySerT (treeMsg id toySerD exPrior) = toySerT (treeMsg id toySerD exTree) →
+        treeMsg id toySerD exPrior = treeMsg id toySerD exTree) ∧
+      CollisionFree id (streams id toySerD toySerT exTree ++ streams id toySerD toySerT exPrior)) := by
+  refine ⟨by simp [Entry.WF, WFList, namesOf, exTree], by decide, ?_, by simp [toyDeT], ?_, by simp [Clear, lookupE], ?_, ?_, ?_, ?_⟩
+  · unfold InjOnKids; simp [encList, exTree, toySerD]
+  · unfold CollisionFree
+    simp [streams, treeMsg, children, sortKids, insertKid, bytesLt, encList, exTree, toySerD, toySerT]
+  · simp [Entry.WF, WFList, namesOf, exPrior]
+  · unfold InjOnKids; simp [encList, exPrior]
+  · simp [treeMsg, children, sortKids, insertKid, bytesLt, encList, exTree, exPrior, toySerD, toySerT]
+  · unfold CollisionFree
+    simp [streams, treeMsg, children, sortKids, insertKid, bytesLt, encList, exTree, exPrior, toySerD, toySerT]
+
+/-! ## Restore is total: success or a definite error -/
+
+/-- **`restore_total`.** The restore functions always return (they are total functions of the model; the only
+    unbounded recursion of the Go code is bounded by `fuel`). With the tree blob missing the directory restore reports
+    `missingBlob` — unless the destination already hashes to the stored digest, in which case nothing is needed; with
+    the file blob missing the file restore reports `missingBlob` unless the local file already has the stored digest.
+    Success whenever all referenced blobs are present is `restoreDir_writeDir` / `restoreFile_writeFile`. -/
+theorem restore_total (H : Bytes → Digest) (serD : Directory → Bytes) (serT : TreeMsg → Bytes)
+    (deT : Bytes → Option TreeMsg) (fuel : Nat) (v : Variant) (d : Digest) (x : Bool) (cas : Cas) (fs : Entry) (p : Path) :
+    (hashDirAt H serD serT fs p ≠ some d → cas.get d = none →
+        restoreDir H serD serT deT fuel d cas fs p = .error .missingBlob) ∧
+    ((∀ b y, fs.get p = some (.file b y) → H b ≠ d) → cas.get d = none →
+        restoreFile H v d x cas fs p = .error .missingBlob) := by
+  constructor
+  · intro h hc
+    simp [restoreDir, h, hc]
+  · intro h hc
+    unfold restoreFile
+    cases hg : fs.get p with
+    | none => simp [restoreFileLoad, hc]
+    | some e =>
+      cases e with
+      | file b y => simp [h b y hg, restoreFileLoad, hc]
+      | dir es => simp [restoreFileLoad, hc]
+      | link t => simp [restoreFileLoad, hc]
+
+example : restoreDir id toySerD toySerT toyDeT 3 [42] [] (.dir []) [[111]] = .error .missingBlob := by
+  simp [restoreDir, hashDirAt, Entry.get, lookupE, Cas.get]
+
+/-! ## Declared outputs must match the stored outputs -/
+
+/-- **`validate_outputs`.** `LoadOutputs` proceeds iff the declared output definitions and the definitions of the
+    stored outputs are equal as multisets (permutations of each other) — the Go code compares lengths and the sorted
+    slices. -/
+theorem validate_outputs (declared stored : List Bytes) :
+    validateOutputs declared stored = true ↔ declared.Perm stored := by
+  unfold validateOutputs
+  constructor
+  · intro h
+    simp only [Bool.and_eq_true, beq_iff_eq] at h
+    exact (sortBytes_perm declared).symm.trans (h.2 ▸ sortBytes_perm stored)
+  · intro h
+    simp only [Bool.and_eq_true, beq_iff_eq]
+    exact ⟨h.length_eq, sortBytes_eq_of_perm h⟩
+
+example : validateOutputs [[2], [1], [1]] [[1], [2], [1]] = true ∧ validateOutputs [[1], [1]] [[1], [2]] = false := by decide
 
 end Grog.C06
